@@ -130,6 +130,10 @@ def exec_call(d):
         elif t == "polygonize":
             from xrspatial.experimental.polygonize import polygonize
             r = raster(d["rid"], dt, "numpy", nan=False) % 3 if not dt.startswith("float") else np.floor(raster(d["rid"], dt, "numpy", nan=False)) % 3
+            if d.get("vals") == "near":
+                # nearly equal neighbours: distinct under the exact comparison used for integer rasters (2500000 vs 2500001),
+                # equal under the isclose comparison used for float rasters (1.0 vs 1.000001) - exposes a comparison specialised once
+                r = (r * 0 + 2500000 + r) if not dt.startswith("float") else (1.0 + r * 1e-6)
             out = polygonize(r.astype(dt), connectivity=d["conn"])
         elif t == "classify":
             r = raster(d["rid"], dt, bk)
@@ -414,7 +418,7 @@ FIELDS = {
     "hotspots": {"k": ["cross3", "row3"], "dtype": DTS, "backend": BKS},
     "zstats": {"stats": [None, ["mean", "max"], ["count", "sum", "std"]], "zone_ids": [None, [1, 2]], "dtype": ["float64", "int32"], "backend": BKS},
     "crosstab": {"agg": ["count", "percentage"], "cat_ids": [None, [1, 3]], "backend": BKS},
-    "polygonize": {"dtype": ["int32", "int64", "uint32", "float32", "float64"], "conn": [4, 8]},
+    "polygonize": {"dtype": ["int32", "int64", "uint32", "float32", "float64"], "conn": [4, 8], "vals": ["small", "near"]},
     "classify": {"fn": ["quantile", "natural_breaks", "equal_interval", "binary", "reclassify"], "dtype": DTS, "backend": BKS,
                  "values": [[1, 2], [0.5], [3, -1, 2]], "bins": [[0, 2, 4], [1, 9], [-1, 0, 1, 2, 3]], "k": [2, 3, 5],
                  "num_sample": [None, 30, 12, 20]},
@@ -539,7 +543,7 @@ def sweep_cases(families, seed, take):
         return out
     # quick tier: always sweep the parameters that are captured/frozen/defaulted somewhere (limits, sample sizes, counts, seeds, shapes, lists
     # with mutable defaults); sample the remaining sweeps by the seed
-    prio = ("num_sample", "md", "k", "passes", "seed", "shape", "excludes", "stats", "barriers", "tv")
+    prio = ("num_sample", "md", "k", "passes", "seed", "shape", "excludes", "stats", "barriers", "tv", "vals")
     first = [c for c in out if c["designed"].rsplit(".", 1)[1] in prio]
     rest = [c for c in out if c not in first]
     rng.shuffle(rest)
